@@ -125,7 +125,7 @@ PROPS = {
         technique="Lean 4 proof (prefix invariant of the delivery steps; stream-cut lemma for the remote command) + kill-point injection in three directions",
     ),
     "C03": dict(
-        modules=["Copia.Props.C03", "Copia.Props.C03b"], namespaces=["Copia.C03"], runner="bb", bb_module="bb_hubconc",
+        modules=["Copia.Props.C03", "Copia.Props.C03b", "Copia.Props.C03c"], namespaces=["Copia.C03"], runner="bb", bb_module="bb_hubconc",
         assumptions=_HUB_ASSUME + ["flock(2) mutual exclusion and release on process death, rename(2) atomic replace, O_TRUNC keeping the inode are trusted kernel semantics",
                                    "the interleaved transition system contains Put and Delete (`refinement`); Get is not a step kind — `C10.fetch_reads_one_complete_version` shows a published inode is never written again, so a Get is an atomic read at its open; List is not claimed atomic",
                                    "staging names are per process (WF.tmp_inj) — true of the repaired code (D6), false of the pinned code"],
